@@ -305,6 +305,9 @@ def cond_values(fn: FuncInfo, stop_at: Optional[ast.AST] = None, limit: int = 64
         for s in body:
             if not paths:
                 break
+            if s is stop_at:
+                reached.extend(paths)
+                return [], reached
             if contains(s) and not isinstance(s, ast.If):
                 if isinstance(s, (ast.For, ast.While, ast.Try, ast.With)):
                     killed = {n.id for n in ast.walk(s) if isinstance(n, ast.Name) and isinstance(n.ctx, ast.Store)}
@@ -327,6 +330,11 @@ def cond_values(fn: FuncInfo, stop_at: Optional[ast.AST] = None, limit: int = 64
                                 for x, xv in zip(t.elts, v.elts):
                                     if isinstance(x, ast.Name):
                                         e[x.id] = xv
+                            elif not any(isinstance(x, ast.Starred) for x in t.elts) and not isinstance(v, ast.Call):
+                                # unpacking a sequence-valued expression: component i is <expr>[i]
+                                for i_, x in enumerate(t.elts):
+                                    if isinstance(x, ast.Name):
+                                        e[x.id] = ast.fix_missing_locations(ast.Subscript(value=v, slice=ast.Constant(value=i_), ctx=ast.Load()))
                             else:
                                 for x in ast.walk(t):
                                     if isinstance(x, ast.Name):
@@ -374,3 +382,68 @@ def cond_values(fn: FuncInfo, stop_at: Optional[ast.AST] = None, limit: int = 64
 
     cont, reached = run(fn.node.body, [((), {})])
     return reached if stop_at is not None else cont
+
+
+# ---------------------------------------------------------------------------------------------------------------
+def degree_in(e: ast.AST, sym: str, defs: dict, depth: int = 0) -> Optional[int]:
+    """Homogeneity degree of expression e in the scalar `sym` (None: not homogeneous / cannot tell).  Products (scalar,
+    elementwise, matrix) add degrees, quotients subtract, sums need equal degrees; transposes, conjugates, slices,
+    reshapes, copies and sums over axes keep the degree; single-assignment locals are looked through."""
+    if depth > 12:
+        return None
+    if isinstance(e, ast.Constant):
+        return 0
+    if isinstance(e, ast.Name):
+        if e.id == sym:
+            return 1
+        if e.id in defs:
+            return degree_in(defs[e.id], sym, defs, depth + 1)
+        return 0
+    if isinstance(e, ast.Attribute):
+        if e.attr in ('T', 'real', 'imag', 'H'):
+            return degree_in(e.value, sym, defs, depth + 1)
+        return 0
+    if isinstance(e, ast.Subscript):
+        return degree_in(e.value, sym, defs, depth + 1)
+    if isinstance(e, ast.UnaryOp):
+        return degree_in(e.operand, sym, defs, depth + 1)
+    if isinstance(e, ast.BinOp):
+        l, r = degree_in(e.left, sym, defs, depth + 1), degree_in(e.right, sym, defs, depth + 1)
+        if l is None or r is None:
+            return None
+        if isinstance(e.op, (ast.Mult, ast.MatMult)):
+            return l + r
+        if isinstance(e.op, ast.Div):
+            return l - r
+        if isinstance(e.op, (ast.Add, ast.Sub)):
+            return l if l == r else None
+        if isinstance(e.op, ast.Pow) and isinstance(e.right, ast.Constant) and isinstance(e.right.value, int):
+            return l * e.right.value
+        return None if (l or r) else 0
+    if isinstance(e, ast.Call):
+        mm = matmul_operands(e)
+        if mm is not None:
+            l, r = degree_in(mm[0], sym, defs, depth + 1), degree_in(mm[1], sym, defs, depth + 1)
+            return None if l is None or r is None else l + r
+        f = e.func
+        name = f.attr if isinstance(f, ast.Attribute) else (f.id if isinstance(f, ast.Name) else '')
+        keep = {'transpose', 'conj', 'conjugate', 'copy', 'reshape', 'ravel', 'flatten', 'squeeze', 'astype', 'view', 'sum', 'mean',
+                'asarray', 'array', 'real', 'imag', 'trace', 'diag', 'hstack', 'vstack', 'concatenate', 'cast', 'abs', 'norm'}
+        if name in keep:
+            if isinstance(f, ast.Attribute) and not (isinstance(f.value, ast.Name) and f.value.id in ('np', 'numpy', 'math')) \
+                    and not norm(f.value).endswith('linalg'):
+                return degree_in(f.value, sym, defs, depth + 1)
+            args = [a for a in e.args]
+            if name == 'cast' and args:
+                return degree_in(args[-1], sym, defs, depth + 1)
+            ds = {degree_in(a, sym, defs, depth + 1) for a in args[:1]}
+            return ds.pop() if len(ds) == 1 else None
+        if name == 'sqrt' and e.args:
+            d = degree_in(e.args[0], sym, defs, depth + 1)
+            return 0 if d == 0 else None
+        ds = [degree_in(a, sym, defs, depth + 1) for a in e.args] + [degree_in(k.value, sym, defs, depth + 1) for k in e.keywords]
+        return 0 if all(d == 0 for d in ds) else None
+    if isinstance(e, (ast.Tuple, ast.List)):
+        ds = {degree_in(x, sym, defs, depth + 1) for x in e.elts}
+        return ds.pop() if len(ds) == 1 else None
+    return None
